@@ -329,7 +329,7 @@ def chart_header_tables(ctx):
             idxs = [i for i in idxs if i and i[0] == arg]
             if len(idxs) == 1:
                 rt[idxs[0][1]] = (C.self_attr(n.targets[0]), n)
-    wfn = M.nfn(S.SMMAP + ".write")
+    wfn = M.nfn(S.SMMAP + ".write", subst="alias")
     hdr = None
     for n in walk_no_nested(wfn.node):
         if isinstance(n, ast.Assign) and isinstance(n.value, ast.List) and any(
@@ -399,7 +399,7 @@ SM_WRITE_ROLES = (
 
 def _sm_write(ctx):
     from ..normal import with_roles
-    return with_roles(ctx.M.nfn(S.SMMAP + ".write"), SM_WRITE_ROLES)
+    return with_roles(ctx.M.nfn(S.SMMAP + ".write", subst="alias"), SM_WRITE_ROLES)
 
 
 
